@@ -169,7 +169,9 @@ func run(dir string, env []string, name string, args ...string) (string, error) 
 // prepare copies /repo's working tree to a scratch directory, injects the
 // accessor files and yield fences, and builds the worker binary.
 func prepare(id string, race bool) (scratch string, bin string, raceBin string) {
-	scratch = filepath.Join(scratchRoot(), id)
+	// one scratch directory per invocation: concurrent runs of the same check (a
+	// background sweep next to a foreground run) must not share it
+	scratch = filepath.Join(scratchRoot(), fmt.Sprintf("%s-%d", id, os.Getpid()))
 	os.RemoveAll(scratch)
 	if err := os.MkdirAll(scratch, 0o755); err != nil {
 		die(2, "mkdir scratch: %v", err)
